@@ -1,3 +1,4 @@
+import RQ.Spec.Tight
 import RQ.Driver.Proto
 import RQ.Model.ParPush
 import RQ.Spec.Abs
@@ -254,6 +255,43 @@ def emptyDirKeptInv (fs : FS) (a : String) (implT specT : FS) : Bool :=
   | .apply range => emptyDirKept fs inv.cfg range implT specT
   | _ => false
 
+/-- quilt's own paths (mirror of `Compose.Own`) -/
+def ownB (cfg : Cfg) (k : Key) : Bool :=
+  k.head? == some [46, 112, 99] || k == [] || k == seriesKey ||
+  (match safeKey cfg.patchesDir with | some d => d.isPrefixOf k || k.isPrefixOf d | none => false)
+
+/-- Do the hypotheses of the refinement theorems (`C05_push_refines_pushSpec_all`, `C06_par_refines_pushSpec`,
+`C09_disk_composes`) hold for this invocation?  A Bool mirror of `Tight` (this one is proven equivalent:
+`tightB_iff`), `Compose.Clean`, `Agree.PrefixFree`, the terminated-lines condition (through the class predicate
+`termBroken`) and `PatchPathsDistinct` — for the evidence only: it says how much of the generated space the theorems
+speak about; the verdicts do not depend on it. -/
+def hypsHold (fs : FS) (cfg : Cfg) (range : List Series.Entry) : Bool :=
+  let keys := rangeKeys fs cfg range
+  Tight.tightB fs &&
+  range.all (fun e =>
+    (match patchKey cfg e.name with | some pk => pk.head? != some [46, 112, 99] | none => true) &&
+    (match safeKey e.name with | some p => p != [] && p.head? != some [97, 112, 112, 108, 105, 101, 100, 45, 112, 97, 116, 99, 104, 101, 115] | none => true) &&
+    (match patchKey cfg e.name with
+     | some pk => (match fs.readFile pk with
+        | .ok (b, _) => (match Parse.parsePatch b e.strip false with | .ok _ => true | .error _ => false)
+        | .error _ => false)
+     | none => false)) &&
+  keys.all (fun k => !ownB cfg k) &&
+  keys.all (fun k => keys.all (fun k' => !(k.length < k'.length && k'.take k.length == k))) &&
+  !termBroken fs cfg range &&
+  (let ps := range.map (fun e => safeKey e.name); ps.all (fun p => (ps.filter (· == p)).length == 1))
+
+/-- `1` / `0`: the hypotheses hold / do not hold for the first invocation that applies something; `na`: none does -/
+def hypField (fs0 : FS) (invs : List String) : String :=
+  match invs with
+  | a :: _ =>
+    let inv := parseArgs (if a == "-" then [] else a.splitOn " ") ()
+    if inv.bad || inv.cfg.dryRun then "na"
+    else match plan inv.cfg fs0 with
+      | .apply range => boolS (hypsHold fs0 inv.cfg range)
+      | _ => "na"
+  | [] => "na"
+
 /-- the class of known finding the invocation falls in, if its outcome differs from the specification.
 `refused`: the implementation exited with status 1 and left the tree as it was. -/
 def knownClass (fs : FS) (a : String) (refused : Bool) (implT specT : FS) : Option String :=
@@ -444,7 +482,7 @@ def step (fields : List String) : String :=
     let c06 := if !par then "na" else if !(invs.all (rangeParses (parseTree tree))) then "na"
                else if specV.startsWith "KNOWN:" then specV
                else if specV != "ok" then "FAIL:differs-from-single-threaded:" ++ (specV.splitOn " ").headD "" else if !ok then "MODEL" else "ok"
-    s!"{cid} eq={boolS (ok || c06 == "na" && par)} firstbad={optNatS firstBad} C06={c06} SPEC={specV} ABS={absVerdict (parseTree tree) invs impl} C08S={c08Statement (parseTree tree) invs impl} C13={c13 (parseTree tree) invs impl specV} C10={c10 invs impl ioFlags} C15={c15 impl} C19={c19 impl} C11={c11 impl} C07={c07 impl} model={"|".intercalate m}"
+    s!"{cid} eq={boolS (ok || c06 == "na" && par)} firstbad={optNatS firstBad} C06={c06} SPEC={specV} ABS={absVerdict (parseTree tree) invs impl} C08S={c08Statement (parseTree tree) invs impl} C13={c13 (parseTree tree) invs impl specV} C10={c10 invs impl ioFlags} C15={c15 impl} C19={c19 impl} C11={c11 impl} C07={c07 impl} HYP={hypField (parseTree tree) invs} model={"|".intercalate m}"
   | _ => "bad-line"
 
 /-- Engine `F` (C18): one invocation with the k-th file-system write failing.
